@@ -13,7 +13,8 @@ LEVEL = ("Abstract interpretation (interval x monotonicity) of DualAverage::adva
          "trial step is measured by a freshly initialised collector (R5/R6); the acceptance collector adds exactly one sample per "
          "leapfrog to each running mean on every path, so the statistic is never 0/0 after a leapfrog (R7), and every leapfrog outcome (Ok or Divergence) is registered with the collector exactly once (R8). Numeric identities (weighted average as a number, "
          "bracketing, closed-loop acceptance) are not decided."
-         " Added (round 5): outside advance() both iterates of the dual average are written with the same start value (R2 start-value clause); the interpreter forgets what it knows about self's fields at an opaque call on self.")
+         " Added (round 5): outside advance() both iterates of the dual average are written with the same start value (R2 start-value clause); the interpreter forgets what it knows about self's fields at an opaque call on self."
+         " Added (round 6): the step-size settings reach the strategy as the user set them - no clamp, no constant override, no defaulted struct in Settings::new_chain (R11, rules/convert.py); the initial search lies on every path to Ok of AdaptStrategy::init (R12).")
 EXPLANATION = ("MONO abstract interpreter over the HIR of the advance() bodies with induction over struct fields; FLOW lanes over MIR; "
                "SIB mirror comparison of the search arms; dominance of register_init over each trial leapfrog.")
 TRUSTED = ["rustc nightly HIR/MIR", "nutsfacts extractor", "rules/mono.py, rules/c07.py", "f64 methods sqrt/ln/exp/min/powf are monotone as documented"]
